@@ -7,7 +7,7 @@ import (
 	"verif/harness/core"
 )
 
-// The tool's two checksum functions are unexported (pgChecksumBlock is not even called by the tool);
+// The tool's two checksum functions are unexported (since fix 11 computePageChecksum calls pgChecksumBlock);
 // they are reached by name so that the Lean models of both can be compared with the real code on
 // arbitrary inputs (computePageChecksum is also reached through VerifyPageChecksum in `blockinfo`).
 
@@ -19,9 +19,16 @@ func pgChecksumBlock(page []byte, blockNumber uint32) uint16
 
 func init() {
 	// toolcksum: args = block number, data (any length)
+	// (cross-checked with the harness's own pg_checksum_page on 8192-byte inputs)
 	core.Register("toolcksum", func(args []string) string {
 		bn := uint32(core.Atoi(args[0]))
 		data := unhex(args[1])
-		return fmt.Sprintf("%d:%d", computePageChecksum(data, bn), pgChecksumBlock(data, bn))
+		text := fmt.Sprintf("%d:%d", computePageChecksum(data, bn), pgChecksumBlock(data, bn))
+		if len(data) == 8192 {
+			if own := ownChecksumPage(data, bn); text != fmt.Sprintf("%d:%d", own, own) {
+				text += fmt.Sprintf("!XCHECK:own=%d", own)
+			}
+		}
+		return text
 	})
 }
